@@ -111,8 +111,17 @@ def main():
         for kind, idx, a in tasks:
             fn = {"clause": core.run_clause_shard, "enum": core.run_enum_chunk, "replays": core.run_replays_worker}[kind]
             handles.append((kind, idx, pool.apply_async(fn, a)))
+        # a time budget for the whole check: a task that does not return (e.g. the code under test retries forever)
+        # makes the run inconclusive (exit 2) instead of hanging; a budget hit is never reported as a violation
+        import multiprocessing as _mp
+        budget = float(os.environ.get("PBT_DEADLINE", "1500" if tier == "quick" else "21600"))
+        t_end = time.time() + budget
         for kind, idx, h in handles:
-            results.append((kind, idx, h.get()))
+            try:
+                results.append((kind, idx, h.get(timeout=max(1.0, t_end - time.time()))))
+            except _mp.TimeoutError:
+                results.append((kind, idx, {"error": "HarnessError: %s task %d did not finish within the time budget of "
+                                                     "%.0f s (inconclusive, not a violation)" % (kind, idx, budget)}))
 
     # second engine (thorough tier): coverage-guided atheris campaigns on the clauses the module nominates
     fuzz_stats = []
